@@ -300,6 +300,9 @@ fn pump(kind: &str, n: usize) -> Option<String> {
         "nested-parens-assertion" => format!("2024/01/01 x\n  A  1 USD = {}1 USD{}\n  B\n", rep("(", n), rep(")", n)),
         "unary-minus-chain" => format!("2024/01/01 x\n  A  ({}1 USD{})\n  B\n", rep("-(", n), rep(")", n)),
         "long-sum" => format!("2024/01/01 x\n  A  (1 USD{})\n  B\n", rep(" + 1 USD", n)),
+        "long-sum-of-parenthesised-operands" => format!("2024/01/01 x\n  A  (1 USD{})\n  B\n", rep(" + (1 USD)", n)),
+        "long-product-of-negated-operands" => format!("2024/01/01 x\n  A  (1 USD{})\n  B\n", rep(" * -(1)", n)),
+        "long-sum-in-assertion" => format!("2024/01/01 x\n  A  1 USD = (1 USD{})\n  B\n", rep(" - (0 USD)", n)),
         "many-commodities-in-one-amount" => {
             let mut s = String::from("2024/01/01 x\n  A  (1 C0");
             for i in 1..n {
@@ -352,8 +355,8 @@ fn letters(mut i: usize) -> String {
     s
 }
 
-const PUMP_KINDS: [&str; 19] = [
-    "nested-parens-amount", "nested-parens-cost", "nested-parens-assertion", "unary-minus-chain", "long-sum", "many-commodities-in-one-amount", "many-postings", "many-transactions", "many-metadata-lines", "many-blank-lines", "many-comment-lines", "long-account-name", "long-payee", "long-commodity", "literal-digits", "literal-fraction-digits", "many-accounts", "many-aliases", "big-product",
+const PUMP_KINDS: [&str; 22] = [
+    "nested-parens-amount", "nested-parens-cost", "nested-parens-assertion", "unary-minus-chain", "long-sum", "long-sum-of-parenthesised-operands", "long-product-of-negated-operands", "long-sum-in-assertion", "many-commodities-in-one-amount", "many-postings", "many-transactions", "many-metadata-lines", "many-blank-lines", "many-comment-lines", "long-account-name", "long-payee", "long-commodity", "literal-digits", "literal-fraction-digits", "many-accounts", "many-aliases", "big-product",
 ];
 
 fn judge_binary(kind: &str, e_len: usize) -> Option<Outcome> {
@@ -604,7 +607,9 @@ fn run(ctx: &mut Ctx) {
     // ---------------- family 4: pumping through the real binary
     let sizes: &[usize] = ctx.tier.pick(&[1usize, 10, 100, 1000, 10000][..], &[1usize, 10, 100, 1000, 10000, 100000][..]);
     for kind in PUMP_KINDS {
-        for &n in sizes {
+        let expression_shaped = kind.starts_with("nested-parens") || (kind.starts_with("long-") && !matches!(kind, "long-account-name" | "long-payee" | "long-commodity")) || kind == "unary-minus-chain";
+        let deep: &[usize] = ctx.tier.pick(&[1usize, 10, 100, 1000, 10000, 100000][..], &[1usize, 10, 100, 1000, 10000, 100000, 1000000][..]);
+        for &n in if expression_shaped { deep } else { sizes } {
             if !ctx.next_is_mine() {
                 ctx.skip_cases(1);
                 continue;
